@@ -201,13 +201,22 @@ pub fn op_threads(case: &J) -> J {
   let model_texts: Vec<String> = case.get("models").and_then(|v| v.as_array()).unwrap_or(&empty).iter().map(|m| m.as_str().unwrap_or("").to_string()).collect();
   let mut expected: Vec<String> = vec![];
   let mut sequential_differs: Vec<J> = vec![];
+  // "alone" is literal: a fresh evaluator on a fresh thread (state kept per thread by the code under test must not
+  // travel from one expectation to the next either)
   for c in &calls {
-    let alone = match dmntk_model::parse(&model_texts[c.model]).ok().and_then(|d| ModelEvaluator::new(&d).ok()) {
-      Some(e) => e,
-      None => return json!({"harness_error": "model does not build a second time"}),
-    };
-    let v = alone.evaluate_invocable(&c.invocable, &tagged(&c.input, "alone"));
-    expected.push(vj::from_value(&v).to_string());
+    let text = model_texts[c.model].clone();
+    let invocable = c.invocable.clone();
+    let input = tagged(&c.input, "alone");
+    let h = std::thread::Builder::new().stack_size(8 * 1024 * 1024).spawn(move || {
+      let alone = dmntk_model::parse(&text).ok().and_then(|d| ModelEvaluator::new(&d).ok())?;
+      Some(vj::from_value(&alone.evaluate_invocable(&invocable, &input)).to_string())
+    });
+    match h.map(|h| h.join()) {
+      Ok(Ok(Some(v))) => expected.push(v),
+      Ok(Ok(None)) => return json!({"harness_error": "model does not build a second time"}),
+      Ok(Err(_)) => return json!({"panic_in_single_call": c.invocable}),
+      Err(_) => return json!({"harness_error": "cannot spawn a thread"}),
+    }
   }
   for (k, c) in calls.iter().enumerate() {
     let v = evaluators[c.model].evaluate_invocable(&c.invocable, &tagged(&c.input, "sequential"));
